@@ -15,12 +15,14 @@ Definition NI (c : N * (list N * Z * bool * Z)) : str :=
   let '(n, (e, c0, a, h)) := c in
   decN n ++ lit ":" ++ lit "(" ++ pyrepr e ++ sep2 ++ decZ c0 ++ sep2 ++ pybool a ++ sep2 ++ decZ h ++ lit ")".
 Definition sd0 (s : option Z) : Z := match s with Some s => s | None => 0%Z end.
-Definition EK (c : N * N * (Z * option Z)) : list Z :=
-  let '(u, v, (o, s)) := c in [Z.of_N u; Z.of_N v; o; sd0 s].
-Definition EI (c : N * N * (Z * option Z)) : str :=
-  let '(u, v, (o, s)) := c in
+Definition EK (c : N * N * ecv) : list Z :=
+  let '(u, v, (o, t, s)) := c in [Z.of_N u; Z.of_N v; o; sd0 s].
+Definition OS (o : Z) (t : option Z) : str :=
+  match t with None => fl o | Some b => lit "(" ++ fl o ++ sep2 ++ fl b ++ lit ")" end.
+Definition EI (c : N * N * ecv) : str :=
+  let '(u, v, (o, t, s)) := c in
   let pr := lit "(" ++ decN u ++ sep2 ++ decN v ++ lit ")" in
-  pr ++ lit ":" ++ lit "(" ++ pr ++ sep2 ++ fl o ++ sep2 ++ (match s with Some s => fl s | None => lit "0" end) ++ lit ")".
+  pr ++ lit ":" ++ lit "(" ++ pr ++ sep2 ++ OS o t ++ sep2 ++ (match s with Some s => fl s | None => lit "0" end) ++ lit ")".
 
 Lemma nkey_id_cov p : nkey_id p = NK (covn p).
 Proof. destruct p as [n [e a c h m]]. unfold nkey_id, nkey, NK, covn, ncov. simpl. rewrite <- app_assoc. reflexivity. Qed.
@@ -29,9 +31,9 @@ Proof. destruct p as [n [e a c h m]]. reflexivity. Qed.
 Lemma minmax_idem u v : N.min (N.min u v) (N.max u v) = N.min u v /\ N.max (N.min u v) (N.max u v) = N.max u v.
 Proof. lia. Qed.
 Lemma ekey_cov e : ekey e = EK (cove e).
-Proof. destruct e as [[u v] [o s]]. reflexivity. Qed.
+Proof. destruct e as [[u v] [o s t]]. reflexivity. Qed.
 Lemma edge_item_cov e : edge_item e = EI (cove e).
-Proof. destruct e as [[u v] [o s]]. reflexivity. Qed.
+Proof. destruct e as [[u v] [o s t]]. reflexivity. Qed.
 
 Lemma sort_by_ext {A} (k1 k2 : A -> list Z) l : (forall x, k1 x = k2 x) -> sort_by k1 l = sort_by k2 l.
 Proof.
@@ -71,7 +73,7 @@ Qed.
 
 Lemma EK_inj_simple g : simple g -> forall x y, In x (cov_edges g) -> In y (cov_edges g) -> EK x = EK y -> x = y.
 Proof.
-  intros Hs [[u v] [o s]] [[u' v'] [o' s']] Hx Hy E. apply (simple_keys g Hs); auto.
+  intros Hs [[u v] [[o t] s]] [[u' v'] [[o' t'] s']] Hx Hy E. apply (simple_keys g Hs); auto.
   unfold EK in E. inversion E. simpl. f_equal; apply N2Z.inj; auto.
 Qed.
 
@@ -116,11 +118,11 @@ Proof.
 Qed.
 
 (* ---------------- wl / morgan: for any ranking, the same for both presentations ---------------- *)
-Definition incc (v : N) (c : N * N * (Z * option Z)) : list (N * (Z * option Z)) :=
+Definition incc (v : N) (c : N * N * ecv) : list (N * ecv) :=
   let '(a, b, x) := c in (if N.eqb a v then [(b, x)] else []) ++ (if N.eqb b v then [(a, x)] else []).
 Definition inc1 (v : N) (e : N * N * eattr) : list (N * eattr) :=
   let '(a, b, x) := e in (if N.eqb a v then [(b, x)] else []) ++ (if N.eqb b v then [(a, x)] else []).
-Definition ce (p : N * eattr) : N * (Z * option Z) := (fst p, ecov (snd p)).
+Definition ce (p : N * eattr) : N * ecv := (fst p, ecov (snd p)).
 
 Lemma inc_flat g v : inc g v = flat_map (inc1 v) (gedges g).
 Proof. unfold inc. apply flat_map_ext. intros [[a b] x]. reflexivity. Qed.
